@@ -4,6 +4,8 @@ Model: LdpcV/Model/Linalg.lean (`rowEchelonForm`, `placeColumns`, `paritySystema
 Vocabulary: LdpcV/Spec/GF2Spec.lean.  Helper lemmas: LdpcV/Lemmas/EchelonLemmas.lean.
 -/
 import LdpcV.Lemmas.EchelonLemmas
+import LdpcV.Props.C02
+import LdpcV.Lemmas.CodePerm
 namespace LdpcV.C09
 open LdpcV LdpcV.Lin
 
@@ -28,6 +30,30 @@ theorem tail_nonsingular (h g : SM) (hinv : h.Inv) (hr : 1 ≤ h.nrows) (hn : h.
   rcases e_sys_main h hinv hr hn with ⟨_, he⟩ | ⟨_, g', he, _, _, _, _, h5⟩
   · rw [he] at hg; cases hg
   · rw [he] at hg; cases hg; exact h5
+
+/-- … and it does: `Encoder::from_h` on the converted matrix returns an encoder (neither the
+not-invertible error nor a panic) — C09's tail invertibility composed with C02's "builds iff invertible" -/
+theorem encoder_accepts (h g : SM) (hinv : h.Inv) (hr : 1 ≤ h.nrows) (hn : h.nrows ≤ h.ncols)
+    (hg : paritySystematic h = .ok g) : ∃ e, fromH g = .ok e := by
+  obtain ⟨gi, gr, gc, _⟩ := permutes_columns h g hinv hr hn hg
+  have hns := tail_nonsingular h g hinv hr hn hg
+  have hr' : 1 ≤ g.nrows := by omega
+  have hn' : g.nrows ≤ g.ncols := by omega
+  cases hf : fromH g with
+  | ok e => exact ⟨e, rfl⟩
+  | err => exact absurd hns (C02.fromH_err_singular g gi hr' hn' hf)
+  | panic => exact absurd hf (C02.fromH_no_panic g gi hr' hn')
+
+/-- the code is unchanged up to that coordinate permutation: with `σ` as in `permutes_columns` (column `c` of the
+input is column `σ c` of the result), a word satisfies every check of the input iff the word with its bits moved
+along `σ` satisfies every check of the result -/
+theorem code_unchanged (h g : SM) (hinv : h.Inv) (hr : 1 ≤ h.nrows) (hn : h.nrows ≤ h.ncols)
+    (hg : paritySystematic h = .ok g) :
+    ∃ σ : List Nat, σ.Perm (List.range h.ncols) ∧ (∀ c, c < h.ncols → g.col (σ.getD c 0) = h.col c) ∧
+      ∀ w : List Bool, w.length = h.ncols →
+        syndromeOK g ((List.range h.ncols).map (fun j => w.getD (σ.idxOf j) false)) = syndromeOK h w := by
+  obtain ⟨gi, gr, gc, σ, hσ, hcol⟩ := permutes_columns h g hinv hr hn hg
+  exact ⟨σ, hσ, hcol, fun w _ => syndromeOK_colperm h g hinv gi gr gc σ hσ hcol w⟩
 
 /-- the not-full-rank error is returned only for rank-deficient matrices … -/
 theorem err_sound (h : SM) (hinv : h.Inv) (hr : 1 ≤ h.nrows) (hn : h.nrows ≤ h.ncols)
